@@ -295,6 +295,38 @@ func init() {
 			},
 		})
 	}
+	// the limit set by TunePool survives Restart and Stop/Restart
+	for _, viaStop := range []bool{false, true} {
+		viaStop := viaStop
+		nm := "tune-restart/direct"
+		if viaStop {
+			nm = "tune-restart/stop"
+		}
+		Register(&Scenario{
+			Name:  nm,
+			Props: []string{"C02", "C14", "C18"},
+			Mode:  "NB", Quick: 1, Thorough: 2, Shards: 4,
+			Body: func(h *H) {
+				h.Shape = Gated
+				w := h.NewWorker(ResW, 3)
+				q := w.Bind(Fifo, nil)
+				w.TunePool(1)
+				if viaStop {
+					w.Stop()
+				}
+				w.Restart()
+				if n := w.Wk.NumConcurrency(); n != 1 {
+					h.viol("C02", "C02.numconcurrency", fmt.Sprintf("NumConcurrency()=%d after TunePool(1) and Restart", n))
+				}
+				for i := 0; i < 3; i++ {
+					q.Add(i, AddOpt{})
+				}
+				h.Quiesce(false)
+				h.OpenAll(0, 1, 2)
+				h.End()
+			},
+		})
+	}
 	// TunePool down trimming idle workers kept by a minimum-idle ratio; then Stop: nothing may be left behind
 	Register(&Scenario{
 		Name:  "tune-shrink",
@@ -432,9 +464,13 @@ func init() {
 	// ---- idle-worker reaper vs dispatcher (C01, C03, C18) --------------------------------------------------
 	for _, kp := range []kindPair{{Plain, Fifo}, {ResW, Fifo}} {
 		kp := kp
+		only := ""
+		if kp.W != Plain {
+			only = "thorough"
+		}
 		Register(&Scenario{
 			Name:  name("reaper/%s", kp),
-			Props: []string{"C01", "C03", "C18"},
+			Props: []string{"C01", "C03", "C18"}, Only: only,
 			Mode:  "DB", Quick: 3, Thorough: 4, Shards: 16, PoolChoice: false,
 			Body: func(h *H) {
 				w := h.NewWorker(kp.W, 2, varmq.WithIdleWorkerExpiryDuration(time.Second))
@@ -452,6 +488,80 @@ func init() {
 			},
 		})
 	}
+	// expiry with a minimum-idle ratio follows TunePool: after the periods have elapsed the idle workers beyond
+	// ratio% of the *current* limit are retired, never the last one
+	Register(&Scenario{
+		Name:  "reaper-tune",
+		Props: []string{"C18", "C02"},
+		Mode:  "NB", Quick: 1, Thorough: 2, Shards: 8,
+		Body: func(h *H) {
+			h.Shape = Gated
+			w := h.NewWorker(Plain, 4, varmq.WithIdleWorkerExpiryDuration(time.Second), varmq.WithMinIdleWorkerRatio(50))
+			w.Expiry = true
+			q := w.Bind(Fifo, nil)
+			for i := 0; i < 4; i++ {
+				q.Add(i, AddOpt{})
+			}
+			h.Quiesce(false)
+			h.OpenAll(0, 1, 2, 3)
+			h.Quiesce(true)
+			w.TunePool(2)
+			vrt.Arm(2)
+			h.End()
+			if w.FinalIdle != 1 {
+				h.viol("C18", "C18.idle-after-expiry", fmt.Sprintf("%d idle workers after two expiry periods at rest, minimum ratio 50%% of the tuned limit 2", w.FinalIdle))
+			}
+		},
+	})
+	// nobody reads Errs(): failing jobs finishing together must not block the pool (the channel holds one error)
+	for _, kp := range []kindPair{{ErrW, Fifo}, {ResW, Prio}, {Plain, Pers}} {
+		kp := kp
+		Register(&Scenario{
+			Name:  name("errs-unread/%s", kp),
+			Props: []string{"C03", "C07", "C05"},
+			Mode:  "NB", Quick: 2, Thorough: 3, Shards: 8,
+			Body: func(h *H) {
+				h.Shape = Gated
+				for i := 0; i < 4; i++ {
+					h.Beh[i] = BErr
+					if kp.W == Plain {
+						h.Beh[i] = BPanic
+					}
+				}
+				w := h.NewWorker(kp.W, 2)
+				q := w.Bind(kp.Q, nil)
+				q.Add(0, AddOpt{})
+				h.Open(0)
+				h.Quiesce(false) // the channel now holds job 0's error and nobody takes it
+				q.Add(1, AddOpt{})
+				q.Add(2, AddOpt{})
+				h.Quiesce(false)
+				go func() { h.Open(1) }()
+				h.Open(2)
+				h.Quiesce(false)
+				q.Add(3, AddOpt{})
+				h.Open(3)
+				h.End()
+			},
+		})
+	}
+	// a burst arriving while the reaper is between its length check and its snapshot of the idle list
+	Register(&Scenario{
+		Name:  "reaper-burst",
+		Props: []string{"C03", "C01", "C18"},
+		Mode:  "NB", Quick: 2, Thorough: 3, Shards: 16,
+		Body: func(h *H) {
+			w := h.NewWorker(Plain, 2, varmq.WithIdleWorkerExpiryDuration(time.Second))
+			w.Expiry = true
+			q := w.Bind(Fifo, nil)
+			q.Add(0, AddOpt{})
+			q.Add(1, AddOpt{})
+			h.Quiesce(true)
+			vrt.Arm(1)
+			go func() { q.Add(2, AddOpt{}); q.Add(3, AddOpt{}) }()
+			h.End()
+		},
+	})
 	Register(&Scenario{
 		Name:  "reaper-trim",
 		Props: []string{"C18", "C03"},
